@@ -96,7 +96,8 @@ Lemma driver_current_source_deterministic_full :
     update_files_by_uri S remove_index analyze uri_sorts_removed uri_sorts_updated h1' h2' v st batch
     /\ path_delegates_to_uri = true /\ single_update_is_singleton = true /\ reindex_ids_in_vec_order = true
     /\ other_update_index_callers = 0
-    /\ best_order_tiebreak_by_file_id = true /\ lua_pipeline_uses_best_order = true.
+    /\ best_order_tiebreak_by_file_id = true /\ lua_pipeline_uses_best_order = true
+    /\ hash_sites_all_reviewed = true.
 Proof.
   intros S rm an h1 h2 h1' h2' v st batch H1 H2 H1' H2'.
   split; [exact (Proofs.driver_deterministic S rm an h1 h2 h1' h2' v st batch H1 H2 H1' H2')|].
